@@ -248,7 +248,31 @@ pub fn rec_msm(a: &Args, out: &mut Out) {
                             emit_case(&mut r, out, num, g, &t, s2, c2, "too-many-cells");
                         }
                     }
-                    7 => emit_case(&mut r, out, num, g, &t, vec![], vec![], "empty"),
+                    7 => {
+                        emit_case(&mut r, out, num, g, &t, vec![], vec![], "empty");
+                        // as many satellite rows as the cells name satellites, but not the same ones
+                        let extra = (1..=64u8).rev().find(|x| !sats.contains(x));
+                        if let Some(x) = extra {
+                            let mut s2 = sats.clone();
+                            let i = r.gen_range(0..s2.len());
+                            s2[i] = x;
+                            emit_case(&mut r, out, num, g, &t, s2, cells.clone(), "sat-mismatch-same-count");
+                            // ... and the other way round: a cell moved to a satellite that has no row
+                            if sats.len() >= 2 {
+                                let victim = sats[sats.len() - 1];
+                                let c2: Vec<(u8, u8, char)> = cells.iter().map(|c| if c.0 == victim { (x, c.1, c.2) } else { *c }).collect();
+                                emit_case(&mut r, out, num, g, &t, sats.clone(), c2, "sat-mismatch-same-count");
+                            }
+                        }
+                        // grids of 256 and more mask cells (products that do not fit 8 bits)
+                        for (ns2, ng2) in [(64usize, 4usize), (32, 8), (43, 6), (64, 5), (64, 32)] {
+                            if sigs.len() >= ng2 && (k / 9) % 5 == [4usize, 8, 6, 5, 32].iter().position(|x| *x == ng2).unwrap_or(0) {
+                                let s2: Vec<u8> = (1..=ns2 as u8).collect();
+                                let c2: Vec<(u8, u8, char)> = s2.iter().enumerate().map(|(i, s)| (*s, sigs[i % ng2].0, sigs[i % ng2].1)).collect();
+                                emit_case(&mut r, out, num, g, &t, s2, c2, "too-many-cells");
+                            }
+                        }
+                    }
                     _ => {
                         emit_case(&mut r, out, num, g, &t, sats.clone(), vec![], "no-cells");
                     }
